@@ -6,10 +6,10 @@
                      first; only after Ok is the session built over the SAME reader, so the session sees
                      exactly the bytes that follow the preamble.  The session's own reaction to those
                      bytes (M4, another package) is a Section variable. *)
-From AnyTLS Require Export Bytes Reader ReaderProg.
+From AnyTLS Require Export Bytes Reader ReaderProg Generated.
 Open Scope N_scope.
 
-Definition hash_len : N := 32.
+Definition hash_len : N := auth_hash_len.      (* regenerated from auth.rs: `[0u8; 32]` *)
 
 Definition auth_prog (H : bytes) : prog unit :=
   PExact hash_len E_EOF (fun h =>
